@@ -246,6 +246,28 @@ fn judge(text: &str, origin: &str, order: u64, st: &mut Stats) {
             st.violate(order, &format!("{clause}: {shape}"), case(&detail), replay.clone());
         }
     };
+    // the other parsing entry points must end like parse_str: parse_reader on the same bytes, and
+    // Schema::parse on the JSON document
+    {
+        st.transitions += 2;
+        let by_reader = guarded(|| Schema::parse_reader(&mut text.as_bytes()));
+        let by_value = jv.as_ref().map(|j| guarded(|| Schema::parse(j)));
+        let same = |a: &Result<Result<Schema, apache_avro::Error>, String>, b: &Result<Result<Schema, apache_avro::Error>, String>| match (a, b) {
+            (Ok(Ok(x)), Ok(Ok(y))) => serde_json::to_string(x).ok() == serde_json::to_string(y).ok(),
+            (Ok(Err(_)), Ok(Err(_))) => true,
+            (Err(_), Err(_)) => true,
+            _ => false,
+        };
+        if !same(&parsed, &by_reader) || by_value.as_ref().is_some_and(|v| !same(&parsed, v)) {
+            let summary = |r: &Result<Result<Schema, apache_avro::Error>, String>| match r {
+                Ok(Ok(_)) => "accepted".to_string(),
+                Ok(Err(e)) => format!("rejected: {e}"),
+                Err(p) => format!("panic: {p}"),
+            };
+            fail(st, "parsing-entry-points-disagree", format!("parse_str: {} | parse_reader: {} | parse(JSON value): {}", summary(&parsed), summary(&by_reader), by_value.as_ref().map(summary).unwrap_or_else(|| "(text is not JSON)".into())));
+            return;
+        }
+    }
     match parsed {
         Err(p) => fail(st, "parser-panicked", p),
         Ok(Err(e)) => {
